@@ -62,6 +62,8 @@ def value_of(x):
     """content of an element or the scalar itself"""
     if isinstance(x, ip.Obj):
         return content(x)
+    if hasattr(x, 'nd_content'):
+        return x.nd_content
     return x
 
 
